@@ -175,12 +175,36 @@ def prefix_free(names):
     segs = [tuple(n.split("/")) for n in set(names)]
     return not any(a != b and b[:len(a)] == a for a in segs for b in segs)
 
+def expected_balance(w, x=None):
+    """the property's right-hand side from the abstract files, in exact rationals: {path tuple: sum of the contributions of all logged foods at or below
+    the path}. Without x a logged food contributes its quantity; with x it contributes quantity x its resolved amount of x (the quantity itself when the
+    food is x and the book does not define it). None when a number is not a plain decimal or the book does not resolve."""
+    from .props import expected_resolution
+    book = [it for it in w["book"] if it[0] in ("heading", "entry")]
+    res = expected_resolution(book) if x is not None else {}
+    if res is None: return None
+    defined = {it[1] for it in book if it[0] == "heading"}
+    out = {}
+    for _, entries in log_days(w):
+        for food, lex in entries:
+            q = fr(lex)
+            if q is None: return None
+            if x is None: v = q
+            elif food in defined:
+                if food not in res or x not in res[food]: continue
+                v = q * res[food][x]
+            elif food == x: v = q
+            else: continue
+            segs = tuple(food.encode().split(b"/"))
+            for k in range(1, len(segs) + 1): out[segs[:k]] = out.get(segs[:k], Fraction(0)) + v
+    return out
+
 def check_C03(ctx):
     r = ctx.rng
     paths = ["/".join(p) for n in (1, 2, 3) for p in itertools.product("ab", repeat=n)]
     sets = [s for n in range(1, ctx.scale(3, 4) + 1) for s in itertools.combinations(paths, n)]
     if ctx.tier == "quick": sets = [s for i, s in enumerate(sets) if len(s) < 3 or i % 2 == 0]
-    cases = []; meta = []
+    cases = []; meta = []; worlds_by_files = {}
     modes = [dict(), dict(collapse=True), dict(collapse_last=True)]
     for s in sets:
         amounts = [r.choice(["1", "2", "4", "8", "16", "0.5", "-3"]) for _ in s]
@@ -205,6 +229,7 @@ def check_C03(ctx):
         w = simple_world(r, envelope=True, pathy=1.0)
         f = files_of(r, w)
         x = r.choice(gen.element_names(w) or ["x"])
+        worlds_by_files[(f["log.yaml"], f["food.yaml"])] = w
         for m in modes:
             cases.append(dict(files=f, cmd="bal", **m, **NOCOLOR)); meta.append((None, None))
             if r.random() < 0.5: cases.append(dict(files=f, cmd="bal", single_element=x, **m, **NOCOLOR)); meta.append((None, None))
@@ -233,11 +258,20 @@ def check_C03(ctx):
             for p in pathsl:                      # siblings sorted
                 sib = [q[-1] for q in pathsl if len(q) == len(p) and q[:-1] == p[:-1]]
                 if sib != sorted(sib): ctx.violation("C03:siblings-unsorted", "siblings below %r are %r" % (p[:-1], sib), rep); break
-            if key[2] is None:
-                # totals against the log itself
-                days = []
-                for line in key[0].decode("utf-8", "surrogateescape").split("\n"):
-                    pass
+            # every row against the files themselves: the amount at a path is the sum of what the logged foods at or below it contribute
+            w0 = worlds_by_files.get((key[0], key[1]))
+            exp = expected_balance(w0, key[2]) if w0 is not None else None
+            if exp is not None:
+                ctx.tally("balance_rows_oracle", "applied")
+                tol = Fraction(1, 100)
+                wrong = [(p, amount[p], exp.get(p)) for p in pathsl if p in exp and not close(amount[p], exp[p], tol)]
+                # without -s every category path of a logged food is shown, also when its amount is 0; with -s only paths that received a contribution are required here
+                lost = [p for p, v in exp.items() if (key[2] is None or abs(v) > tol) and p not in amount]
+                if wrong: ctx.violation("C03:row-amount-not-sum-of-entries", "path %r shows %s, the logged foods at or below it contribute %s%s" % (b"/".join(wrong[0][0]), wrong[0][1], wrong[0][2], " of " + key[2] if key[2] else ""), rep)
+                elif lost: ctx.violation("C03:path-with-entries-not-shown", "path %r is not shown although the logged foods below it contribute %s" % (b"/".join(lost[0]), exp[lost[0]]), rep)
+                if grand is not None and key[2] is not None:
+                    tot = sum(v for p, v in exp.items() if len(p) == 1)
+                    if not close(num(grand[0]), tot, tol): ctx.violation("C03:single-grand-total", "grand total %r, the log contributes %s of %s" % (grand[0], tot, key[2]), rep)
             if grand is not None:
                 top = sum(amount[p] for p in pathsl if len(p) == 1)
                 if not close(num(grand[0]), top, Fraction(len(pathsl) + 1, 100)):
@@ -261,7 +295,8 @@ def check_C03(ctx):
                     ctx.violation("C03:leaves-differ:" + m, "mode %s shows leaves %r, plain mode %r" % (m, leaves[m][:4], leaves["plain"][:4]), rep)
     return dict(rule="(1) every set of up to %d paths over segments {a,b}, depth <= 3 (quick: every second 3-set) x {plain, --collapse, --collapse-last}; (2) random path-shaped logs "
                 "(shared prefixes, forks below single-child chains, repeated foods, several days) with and without -s X over a recipe book; stdout compared byte for byte with the "
-                "extracted Coq model; on the implementation's own rows: each path once, siblings sorted, grand total = sum of top-level rows, no mode drops a path, and - when no inner "
+                "extracted Coq model; on the implementation's own rows: every amount equals the sum of what the logged foods at or below the path contribute, recomputed from the files in exact "
+                "rationals (with -s X: quantity x resolved amount, sum over ingredient paths), each path once, siblings sorted, grand total = sum of top-level rows, no mode drops a path, and - when no inner "
                 "node has entries of its own - every mode shows the same leaf paths with the same amounts. Non-trivial = every case (each has >= 1 path), distinct by log bytes" % ctx.scale(3, 4))
 
 # ---------------------------------------------------------------------------
@@ -354,7 +389,7 @@ def check_C05(ctx):
                           dict(kind="cli", case=c, outputs=[dict(status=s, stdout=o) for s, o in sorted(distinct)][:4], repeat=R))
             continue
         d = run.compare_cli(m, outs[0])
-        if d: ctx.violation("corr:C05:" + c["cmd"], d, dict(kind="cli", case=c, impl=outs[0]))
+        if d: ctx.violation("corr:C05:" + c["cmd"], d, dict(kind="cli", case=c, impl=outs[0], correspondence="S-CLI (extracted Coq model vs implementation)"), found_input=outs[0]["status"].startswith("crash"))
     # separate processes as well (fresh hash seeds)
     sub = cases[:: max(1, len(cases) // ctx.scale(40, 400))]
     P = ctx.scale(3, 10)
@@ -1259,6 +1294,15 @@ def check_C16(ctx):
     f0 = {"food.yaml": b"", "log.yaml": b"2021/01/02:\n  x: 1\n"}
     miss = [dict(files=f0, cmd="csv-log", f_config="nope.cfg", **NOCOLOR), dict(files=f0, cmd="csv-log", e_config="nope.cfg", **NOCOLOR), dict(files=f0, cmd="stats", f_config="nope.cfg", f_today="2021/01/03", **NOCOLOR)]
     for c in miss: cases.append(c); expect.append(("config", None, "missing", lambda i: (i["status"] == "fail:cfgmissing", "a named configuration file that does not exist is an error")))
+    # a configuration path that is a directory (every way of naming it): an error; an unreadable --today: an error (model: EScan / EBadDate)
+    for key in ("f_config", "e_config"):
+        for cmd in ("csv-log", "reg", "stats"):
+            c = dict(files=dict(f0, **{"cfgdir": "DIR"}), cmd=cmd, **{key: "cfgdir"}, **NOCOLOR)
+            cases.append(c); expect.append(("config", None, "directory", lambda i: (i["status"].startswith("fail"), "a configuration path that is a directory is an error")))
+    for bad in ("yesterday", "2021-01-03", "03.01.2021", "2021/13/01", "2021/02/30", "", "2021/01/03 "):
+        for cmd in ("stats", "csv-log", "reg"):
+            c = dict(files=f0, cmd=cmd, f_today=bad, **NOCOLOR)
+            cases.append(c); expect.append(("today", None, "unreadable", lambda i: (i["status"].startswith("fail"), "a --today value that is not a date in the effective format is an error")))
     # --no-database = an empty book, whatever -d / HR_DATABASE / the config say and whether or not food.yaml exists
     nd_pairs = []
     for k in range(ctx.scale(12, 200)):
